@@ -11,7 +11,9 @@ T == Traces[i]
 PP == [L |-> T.p.l, L2 |-> T.p.l2, CS |-> T.p.cs, SS |-> T.p.ss, CMMS |-> T.p.cmms, SMMS |-> T.p.smms, Faults |-> 1000, Guard |-> TRUE]
 File(d) == d.pieces              \* request bodies: <<pos, a, b>>; response bodies: <<pos, a, b, version>>
 Has(q, x) == \E k \in 1..Len(q) : q[k] = x
-Conc == T.op = "conc"            \* a record of N concurrent exchanges (see C04_NoMix)
+Conc == T.op \in {"conc", "obsbw"}      \* a record of N concurrent exchanges (see C04_NoMix) / of an observation (C04_ObsWhole)
+IsConc == T.op = "conc"
+IsObs == T.op = "obsbw"
 Success == T.ret = "ok" /\ T.retcode \in {68, 69}         \* the call returned a 2.04 / 2.05 response
 
 \* "hands the receiving application exactly the bytes the sending application supplied" / "never a partial body
@@ -41,7 +43,7 @@ C04_NoLeftovers == (J /\ ~Conc) => (T.rcvSrvX = 0 /\ T.sndSrvX = 0 /\ T.rcvCliX 
 \* request body reaches the application whole, once, as the body of ITS exchange; every caller gets one whole representation,
 \* and no two callers the same one
 XOK(x) == x.ret = "ok" /\ x.retcode \in {68, 69}
-C04_NoMix == (J /\ Conc) => /\ T.stray = 0
+C04_NoMix == (J /\ IsConc) => /\ T.stray = 0
                             /\ \A k \in 1..T.n : LET x == T.x[k] IN
                                  /\ x.ret \in {"ok", "err"}
                                  /\ \A a \in 1..Len(x.app) : (x.app[a].len = 0 /\ x.uplen = 0) \/ FileIs(File(x.app[a]), x.uplen)
@@ -50,7 +52,20 @@ C04_NoMix == (J /\ Conc) => /\ T.stray = 0
                             /\ \A a, b \in 1..T.n : (a # b /\ XOK(T.x[a]) /\ XOK(T.x[b]) /\ T.p.l2 > 0) => File(T.x[a].got[1])[1][4] # File(T.x[b].got[1])[1][4]
 \* conformance only - fault-free: all of them complete (except the BERT case O1, DESIGN 5 C04)
 O1x(l) == T.p.cs = 7 /\ l > 1024 /\ l < Buf(7, T.p.cmms) /\ l % 1024 # 0
-K04_ConcCompletes == (J /\ Conc) => \A k \in 1..T.n : (XOK(T.x[k]) \/ O1x(T.x[k].uplen))
+K04_ConcCompletes == (J /\ IsConc) => \A k \in 1..T.n : (XOK(T.x[k]) \/ O1x(T.x[k].uplen))
+
+\* observe + block-wise (ObsBlock.tla): every body handed to the observer is ONE representation, whole (never the first
+\* block of one and the rest of the next); notifications reach it in Observe order; registration and cancellation end;
+\* after the cancellation and the transfer timeout nothing is held on either side
+ONote(k) == T.notes[k]
+C04_ObsWhole == (J /\ IsObs) => /\ T.reg = "ok" /\ T.cancel \in {"ok", "err"} /\ T.panics = 0
+                                /\ Len(T.notes) >= 1
+                                /\ \A k \in 1..Len(T.notes) : /\ ONote(k).len = T.p.l2 /\ FileIs(ONote(k).pieces, T.p.l2) /\ OneVersion(ONote(k).pieces)
+                                                               /\ ONote(k).pieces[1][4] \in 1..T.nver
+                                /\ \A k \in 2..Len(T.notes) : ONote(k).seq > ONote(k - 1).seq
+C04_ObsNoLeftovers == (J /\ IsObs /\ T.cancel = "ok") => (T.rcvSrvX = 0 /\ T.sndSrvX = 0 /\ T.rcvCliX = 0 /\ T.sndCliX = 0 /\ T.obsCliX = 0)
+\* conformance only: after a plan that ends with a notification the observer has the current representation
+K04_ObsCurrent == (J /\ IsObs /\ T.plan[Len(T.plan)] \in {"notify", "notify2", "sendchange"}) => T.lastSeen = T.nver
 
 \* ---- conformance only: the layer followed the specification message by message ---------------------------------
 Applied == LET idx == SelectSeq([k \in 1..Len(T.acts) |-> k], LAMBDA k : T.applied[k]) IN [j \in 1..Len(idx) |-> T.acts[idx[j]]]
